@@ -160,6 +160,12 @@ func (w *world) cases(c *engine.Ctx, emit func(kase)) {
 			}
 		}
 	}
+	// peers of the application's own TLS configuration whose handshake completes
+	// and whose protocol list holds names that are legal on the wire but unusual
+	for _, odd := range []struct{ n, s string }{{"255-byte name", strings.Repeat("L", 255)}, {"254-byte name", strings.Repeat("L", 254)}, {"name that is not valid UTF-8", "\xfa\xfa"}, {"name with a NUL byte", "a\x00b"}, {"one-byte name", "z"}} {
+		emit(kase{Kind: "alpn", Protos: []string{"h2", odd.s}, Desc: "base-TLS peer offering h2 and a " + odd.n, BaseTLS: true})
+		emit(kase{Kind: "alpn", Protos: []string{odd.s, "app"}, Desc: "base-TLS peer offering a " + odd.n + " and app", BaseTLS: true})
+	}
 	// honest requests truncated at every length, padded, duplicated, mixed
 	auth, fetch := w.honestAuthRaw(), w.honestFetchRaw()
 	for _, name := range []string{"auth", "fetch"} {
@@ -580,7 +586,7 @@ func init() {
 	engine.Register(&engine.CheckDef{
 		ID:    "C14",
 		Level: "fault_enumeration",
-		Rule: "against the real InterceptingListener on a loopback socket, with and without an application base TLS configuration: ClientHello ALPN lists of 1-3 entries over the three library prefixes x suffixes {empty, shorter than the chunk header, header only, non-base64, random base64, three-digit header, hyphens, long}, honest fetch and authentication requests truncated at every length (quick: every third), padded to 20 KiB (>100 chunks), duplicated, with missing / reordered chunks, mixed prefixes; well-signed fetch requests whose nonce is an unknown / consumed / field-less activation token or has an odd size, alone and with garbage, short, foreign-sealed or malformed re-wrapped registration info (the sealed-info ones also against a listener whose registration wrapper option is a nil pointer of a concrete type); raw non-TLS byte strings (empty, HTTP, TLS record headers with truncated / oversized bodies, 1..64 seeded bytes); honest fetch and authentication handshakes dropped after the k-th client write / read for k = 0..12, and with the server's own k-th write / read on the connection failing with a reset for k = 1..10 (including the close-notify after a handled fetch); every case is followed by an honest Dial on the same listener; " +
+		Rule: "against the real InterceptingListener on a loopback socket, with and without an application base TLS configuration: ClientHello ALPN lists of 1-3 entries over the three library prefixes x suffixes {empty, shorter than the chunk header, header only, non-base64, random base64, three-digit header, hyphens, long}, honest fetch and authentication requests truncated at every length (quick: every third), padded to 20 KiB (>100 chunks), duplicated, with missing / reordered chunks, mixed prefixes; well-signed fetch requests whose nonce is an unknown / consumed / field-less activation token or has an odd size, alone and with garbage, short, foreign-sealed or malformed re-wrapped registration info (the sealed-info ones also against a listener whose registration wrapper option is a nil pointer of a concrete type); peers of the application's base TLS configuration whose completed handshake carries 255-/254-/1-byte, non-UTF-8 and NUL-containing protocol names; raw non-TLS byte strings (empty, HTTP, TLS record headers with truncated / oversized bodies, 1..64 seeded bytes); honest fetch and authentication handshakes dropped after the k-th client write / read for k = 0..12, and with the server's own k-th write / read on the connection failing with a reset for k = 1..10 (including the close-notify after a handled fetch); every case is followed by an honest Dial on the same listener; " +
 			"distinct_nontrivial counts cases (distinct by construction) after which the follow-up dial was attempted and judged",
 		Assumptions: []string{"peers that stall without closing are outside the quantifier (Accept handshakes synchronously by design)", "the application-supplied registration wrapper is wrapped in a length guard: robustness of go-kms-wrapping's aead wrapper against short ciphertexts is not the library's"},
 		Shards:      func(c *engine.Ctx) int { return 16 },
